@@ -238,6 +238,13 @@ func GenWorld(r *Run, o GenOpts) *World {
 	if !o.SmallOnly && maxFiles >= 20 && t.Bool(1, 25, "manyfiles") {
 		nf = 20 + t.Draw(12, "manyfiles-n")
 	}
+	par1Full := false
+	if o.Par1 && !o.SmallOnly && maxFiles >= 20 && t.Bool(1, 60, "par1-full-set") {
+		// PAR 1.0 allows 256 files and volumes altogether: fill it
+		nf = []int{156, 157, 200, 254, 255}[t.Draw(5, "par1-nf")]
+		par1Full = true
+		r.Probe("par1-256-shards")
+	}
 	ss := o.SliceSizes
 	if len(ss) == 0 {
 		ss = sliceSizes
@@ -316,6 +323,9 @@ func GenWorld(r *Run, o GenOpts) *World {
 		}
 		if o.Par1 && t.Bool(1, 8, "empty") {
 			size = 0
+		}
+		if par1Full {
+			size = 1 + t.Draw(24, "tiny")
 		}
 		if size < 1 && !o.Par1 {
 			size = 1
@@ -459,7 +469,18 @@ func GenWorld(r *Run, o GenOpts) *World {
 	if maxR <= 0 {
 		maxR = 8
 	}
-	if o.Par1 {
+	if o.Par1 && par1Full {
+		w.R = 256 - len(w.Files)
+		if w.R > 99 {
+			w.R = 99
+		}
+		if t.Bool(1, 3, "one-less") {
+			w.R--
+		}
+		if w.R < 1 {
+			w.R = 1
+		}
+	} else if o.Par1 {
 		w.R = 1 + t.Pick([]int{2, 3, 3, 2, 1, 1}, "volumes")
 		if t.Bool(1, 20, "manyvolumes") {
 			w.R = 7 + t.Draw(93, "volumes-n")
@@ -478,6 +499,9 @@ func GenWorld(r *Run, o GenOpts) *World {
 	}
 	gs := []int{1, 2, 3, 4, 7, 16, 64, 0}
 	w.G = gs[t.Draw(len(gs), "goroutines")]
+	if t.Bool(1, 3, "goroutines-any") {
+		w.G = 1 + t.Draw(33, "goroutines-n")
+	}
 	r.Logf("world par1=%v dir=%s base=%q cwd=%s S=%d R=%d G=%d N=%d files=%s", w.Par1, w.Dir, w.Base, w.Disk.Cwd, w.S, w.R, w.G, w.N, w.describeFiles())
 	if w.N > 256 {
 		r.Probe(">256-slices")
